@@ -21,6 +21,8 @@ def run(ctx):
         small3.run(ctx, found=bool(ctx.violations))
         from .. import small4        # MAT5 / SDS / SD2 container models (lean/SfModel/Mat5.lean, ...; driver `sfmodel small4`)
         small4.run(ctx, found=bool(ctx.violations))
+        from .. import sd2            # SD2 resource fork, byte for byte + the parser on damaged forks (lean/SfModel/Sd2.lean, SfProps/C04Sd2.lean)
+        sd2.run(ctx, "C04", found=bool(ctx.violations))
         from .. import gsmgeom       # WAV / WAVEX GSM 6.10: frames at re-open (lean/SfModel/GsmGeom.lean, SfProps/C04GsmPad.lean)
         gsmgeom.run(ctx, "C04")
         from .. import alac           # CAF/ALAC: packet staging, pakt / kuki chunks, read / seek around the codec core (lean/SfModel/AlacFile.lean)
